@@ -644,6 +644,86 @@ pub fn run(ctx: &Ctx) -> Report {
     });
     rep.merge(r);
 
+    // ---- (e2) commands that expect no reply (long data for in-range and out-of-range parameter
+    //      indexes, CLOSE of known and unknown ids) between sentinels: not one byte for them; and
+    //      long data for an id that is not live as the LAST command: whatever the server does with
+    //      the connection, it sends nothing for it
+    let n = if ctx.miri { 2 } else { ctx.n(600, 20_000) };
+    let r = par_cases(ctx, "C03", "no-reply-commands", n, |rng, i, rep| {
+        let np = rng.range(1, 3) as usize;
+        let mut cmds = vec![Cmd::prepare(b"p")];
+        let scripts = vec![Script::PrepOk { id: 1, params: (0..np).map(|k| simple_col(&format!("p{}", k), ColumnType::MYSQL_TYPE_BLOB)).collect(), cols: vec![] }, Script::Q(QProg::completed(1, 2))];
+        let steps = rng.range(1, 6);
+        let mut shape = String::new();
+        for _ in 0..steps {
+            match rng.below(5) {
+                0 => {
+                    cmds.push(Cmd::long_data(1, rng.below(np as u64) as u16, &rng.bytes(5)));
+                    shape.push('L');
+                }
+                1 => {
+                    cmds.push(Cmd::long_data(1, np as u16 + rng.below(60_000) as u16, &rng.bytes(5)));
+                    shape.push('O');
+                }
+                2 => {
+                    cmds.push(Cmd::close(2 + rng.next() as u32 % 1000));
+                    shape.push('c');
+                }
+                3 => {
+                    cmds.push(Cmd::long_data(1, 0, &[]));
+                    shape.push('E');
+                }
+                _ => {
+                    cmds.push(Cmd::query(b"q"));
+                    shape.push('Q');
+                }
+            }
+            cmds.push(Cmd::ping());
+        }
+        let dead_last = i % 3 == 0;
+        if dead_last {
+            // statement 77 was never prepared
+            cmds.push(Cmd::long_data(77, 0, b"for nobody"));
+            shape.push('!');
+        }
+        // only the first 'Q' has a script; later ones get the shim's default completion
+        let case = Case::new(cmds, scripts);
+        let obs = run_case(&case);
+        rep.evaluations += 1;
+        rep.counters.class(format!("no-reply commands {}", if shape.len() > 4 { &shape[..4] } else { &shape }));
+        let d = || J::obj().set("commands (L long data, O out-of-range index, E empty chunk, c close of an unknown id, Q query, ! long data for a dead id last)", shape.clone()).set("outcome", obs.outcome.describe());
+        if i == 0 {
+            rep.sample(d());
+        }
+        if harness_panic(&obs, rep) {
+            return;
+        }
+        if !dead_last {
+            let preds: Vec<Option<Vec<PPart>>> = vec![None; 8];
+            if check_conformance("C03", &obs, &preds, rep, &d) {
+                rep.counters.inc("no_reply_conversations_conformant");
+            }
+            return;
+        }
+        if let Outcome::Panic { file, line, msg } = &obs.outcome {
+            rep.violations.push(viol("C03", format!("C03 {}", panic_signature(file, *line, msg)), format!("run_on panicked: {}", obs.outcome.describe()), d()));
+            return;
+        }
+        match decode_output(&obs) {
+            Err(e) => rep.violations.push(viol("C03", "C03 bad-framing".into(), e, d())),
+            Ok((_, msgs, dec)) => {
+                if let Some(wire::Stop::Bad(k, e)) = &dec.stop {
+                    rep.violations.push(viol("C03", "C03 malformed-response".into(), format!("exchange #{}: {}", k, e), d()));
+                } else if dec.used != msgs.len() {
+                    rep.violations.push(viol("C03", "C03 surplus-output".into(), format!("{} messages behind the last reply: long data for a statement id that is not live was answered (first byte 0x{:02x})", msgs.len() - dec.used, msgs[dec.used].payload.first().copied().unwrap_or(0)), d()));
+                } else {
+                    rep.counters.inc("dead_id_long_data_answered_with_nothing");
+                }
+            }
+        }
+    });
+    rep.merge(r);
+
     // ---- (f) replies of exactly T wire packets for T around the multiples of 256 (the one-byte
     //          sequence id is back at its starting value after 256 packets): still one response,
     //          nothing after it, and the next reply is the next command's
